@@ -86,14 +86,21 @@ type Call struct {
 	Verb   string // get list create update patch delete status-patch status-update evict cp-create cp-delete cp-get cp-list
 	Kind   string
 	Name   string
+	Sel    string // list selector (namespace / field / label), part of the call's identity
 	Sub    string
 	Err    string
 	Note   string
 	Object runtime.Object `json:"-"` // object as passed (after the call for writes)
 }
 
+// Sig identifies a call independently of its position in the execution.
+func (c Call) Sig() string { return c.Verb + ":" + c.Kind + ":" + c.Name + "{" + c.Sel + "}" }
+
 func (c Call) String() string {
 	s := fmt.Sprintf("%s %s/%s", c.Verb, c.Kind, c.Name)
+	if c.Sel != "" {
+		s += "{" + c.Sel + "}"
+	}
 	if c.Note != "" {
 		s += " [" + c.Note + "]"
 	}
